@@ -9,6 +9,7 @@ key, change origin, change depth, change unsigned, add age_ts, add outlier + des
 {kept, garbage, re-hashed by the forger, removed}, parsed as untrusted JSON and compared with the specification.
 code -> spec: seeded random tamperings of random events, re-derived by EventIdentity_trace.tla."""
 from checks.c03 import record_and_validate
+from vlib.core import MachineryError
 
 PKG = "c03"
 
@@ -25,10 +26,10 @@ def run(ctx):
     ctx.exhaustive = True
     ctx.notes["rule"] = (
         "every behaviour of the tamper family of EventIdentity.tla: 16 room versions x 12 event shapes x optional "
-        "operation before (%s) x tamper sets of at most %d or at least all-but-one applicable elements out of 11 x 4 "
+        "operation before (%s; after a Redact() only tamper sets of at most one element) x tamper sets of at most %d or at least all-but-one applicable elements out of 11 x 4 "
         "hash modes; distinct = distinct (ID format, redaction algorithm, type, tamper set, hash mode, redacted, "
-        "same-ID, valid signatures)" % (("none / second signature", 2) if ctx.tier == "quick"
-                                         else ("none / second signature / SetUnsigned", 3)))
+        "same-ID, valid signatures)" % (("none / second signature / Redact", 2) if ctx.tier == "quick"
+                                         else ("none / second signature / SetUnsigned / Redact", 3)))
     fams = ["tamper"] if ctx.tier == "quick" else ["tamper", "tamperfull"]
     ctx.notes["constants"] = ", ".join("EventIdentity_gen_%s_%s.cfg" % (f, ctx.tier) for f in fams)
     if ctx.tier == "thorough":
@@ -36,6 +37,13 @@ def run(ctx):
                               "content, member with restricted-join / third-party-invite content, create, power levels, redaction)")
     for fam in fams:
         r = ctx.tlc("EventIdentity_gen", "EventIdentity_gen_%s_%s.cfg" % (fam, ctx.tier), timeout=2400)
+        if fam == "tamper":
+            # the generator must contain, for every redaction algorithm, events that are invariant under redaction
+            # whose hash was changed / removed (the only thing that tells them apart after parsing is Redacted())
+            have = set((x["algo"], x["hm"]) for x in r.records if x["noop"] and x["red"] and x["hm"] in ("garbage", "remove"))
+            missing = [(a, h) for a in range(1, 6) for h in ("garbage", "remove") if (a, h) not in have]
+            if missing:
+                raise MachineryError("tamper family lost its redaction-invariant events with a bad hash: %s" % missing)
         ctx.replay_and_compare("c04", r.records, pkg=PKG)
         del r
     record_and_validate(ctx, "c04", 3000 if ctx.tier == "quick" else 60000, "C04")
